@@ -126,11 +126,12 @@ structure OkR (r : Finder) : Prop where
   hy0v : ofDec r.y0 = 1721060
   htlo : -(41 * ofDec r.tc) ≤ ofDec r.yc * ofDec r.ylo + ofDec r.y0 - ofDec r.tj - ofDec r.B / 2
   hthi : ofDec r.yc * ofDec r.yhi + ofDec r.y0 - ofDec r.tj + ofDec r.B / 2 ≤ 41 * ofDec r.tc
+  hpos : |((r.corrMid : ℚ) : ℝ)| + ((r.corrRad : ℚ) : ℝ) + 41 * ofDec r.tc ≤ ofDec r.tj
 
 theorem okR_of_ok {r : Finder} (h : r.ok = true) : OkR r := by
   simp only [Finder.ok, Bool.and_eq_true, decide_eq_true_eq] at h
-  obtain ⟨⟨⟨⟨⟨⟨⟨⟨⟨h1, h2⟩, h3⟩, h4⟩, h5⟩, h6⟩, h9⟩, h10⟩, h7⟩, h8⟩ := h
-  refine ⟨?_, ?_, ?_, ?_, ?_, ?_, ?_, ?_, ?_, ?_⟩ <;> unfold ofDec
+  obtain ⟨⟨⟨⟨⟨⟨⟨⟨⟨⟨h1, h2⟩, h3⟩, h4⟩, h5⟩, h6⟩, h9⟩, h10⟩, h7⟩, h8⟩, h11⟩ := h
+  refine ⟨?_, ?_, ?_, ?_, ?_, ?_, ?_, ?_, ?_, ?_, ?_⟩ <;> unfold ofDec
   · exact_mod_cast h1
   · exact_mod_cast h2
   · exact_mod_cast h3
@@ -141,6 +142,7 @@ theorem okR_of_ok {r : Finder} (h : r.ok = true) : OkR r := by
   · rw [h10]; norm_num
   · rw [← tMax_cast]; exact_mod_cast h7
   · rw [← tMax_cast]; exact_mod_cast h8
+  · rw [← tMax_cast, ← cast_qabs]; exact_mod_cast h11
 
 /-! ### The period count -/
 
